@@ -35,7 +35,19 @@ var labelSets = [][][2]string{
 
 func genSelector(rng *rand.Rand, malformed bool) *selectorIn {
 	s := &selectorIn{Labels: [][2]string{}, Exprs: []exprIn{}}
-	switch rng.Intn(6) {
+	switch rng.Intn(10) {
+	case 6, 7, 8, 9: // matchLabels and matchExpressions together: both must hold
+		s.Labels = append(s.Labels, [2]string{pickS(rng, []string{"env", "env", "team"}), pickS(rng, []string{"prod", "prod", "dev", "x"})})
+		switch rng.Intn(4) {
+		case 0:
+			s.Exprs = append(s.Exprs, exprIn{Key: pickS(rng, []string{"team", "env"}), Op: "In", Values: []string{pickS(rng, []string{"x", "y", "prod"})}})
+		case 1:
+			s.Exprs = append(s.Exprs, exprIn{Key: pickS(rng, []string{"team", "env"}), Op: "NotIn", Values: []string{pickS(rng, []string{"x", "y", "prod"})}})
+		case 2:
+			s.Exprs = append(s.Exprs, exprIn{Key: pickS(rng, []string{"team", "zone"}), Op: "Exists", Values: []string{}})
+		default:
+			s.Exprs = append(s.Exprs, exprIn{Key: pickS(rng, []string{"team", "zone"}), Op: "DoesNotExist", Values: []string{}})
+		}
 	case 0: // empty selector: everything
 	case 1:
 		s.Labels = append(s.Labels, [2]string{"env", pickS(rng, []string{"prod", "dev"})})
